@@ -10,7 +10,7 @@ degrees are `DSymData.mPartial`, for a plain D-set the default `m` of the trait
 
 * the `while let Some(..) = queue.pop_front()` loops are structural recursions on a fuel
   argument; the fuel given by `morphism`/`fold` is an upper bound for the number of
-  iterations on every D-set (`Proofs/Morphism.lean`: `morphLoop_fuel`).  Fuel exhaustion is
+  iterations on every D-set (`Proofs/Morphism.lean`: `morphLoop_no_panic`; `Proofs/MorphismFuel.lean`: `fold_no_panic`).  Fuel exhaustion is
   `Outcome.panic` and is never returned on a valid D-set.
 * `Option<_>` results: `None` is `Outcome.err`, `Some(x)` is `Outcome.ok x`; an index out of
   range (`m[di]`, `src2img[e]`, …) is `Outcome.panic`, never a default value.
